@@ -315,6 +315,11 @@ func (w *World) boot(n *Node, bootstrap *raft.Configuration) *Inc {
 			inc.checkAlive()
 			n.needBootstrap = nil
 		}
+		if len(n.disk.snaps) >= 2 && !w.quiet && !w.s2 && w.cfg.BootSnapOpenErrPct > 0 && w.ch.Chance(simrt.SFault, w.cfg.BootSnapOpenErrPct, 100) {
+			// the newest snapshot is unreadable at this start-up: raft has to fall back to the next one
+			n.disk.failOnce["SnapOpen"]++
+			w.stats.fault("snapshot_open_error_at_boot")
+		}
 		inc.imageAtBoot = w.or.captureBootImage(n)
 		inc.bootFaults = w.stats.Faults["disk_full_error"] + w.stats.Faults["disk_op_error"]
 		r, err := raft.NewRaft(conf, inc.fsm.asRaftFSM(), ls, ss, snaps, inc.trans)
